@@ -138,6 +138,15 @@ def run_case(ctx, rng, case):
     if schema is None:
         return
     ctx.distinct(shape(spec), nontrivial(spec))
+    if case % 7 == 3:
+        # schemas that only exist as results of substitution must be total as well (they can hold states that
+        # declaration cannot reach, e.g. an explicit type=Nil next to elements)
+        try:
+            from d42 import substitute
+            schema = substitute(schema, witness(spec, rng))
+            ctx.count("substitution_results_used")
+        except Exception:
+            pass
     z = zoo()
     names = sorted(z)
     if ctx.tier == "quick":
